@@ -8,6 +8,7 @@ sandbox interpreter does not have; its loop (`blk[:-hop] += old[hop:]`) is the s
 """
 import common
 from common import enc, dec, err_kind, close
+from props import c09_tr
 from fractions import Fraction as F
 
 ID = "C09"
@@ -47,8 +48,26 @@ TRUSTED = [
     "arguments alone is what the history cases test, it is not proved",
     "history isolation (harness/props/c09.py:_zygote_start): a process forked before the first case runs, one forked child per "
     "history; the first 300 histories of a run always, later ones when they disagree in-process",
-    "hand-written Lean model ALV/Model/C09.lean of overlap_add.list and of the stft wrapper (modelled, not "
-    "verified: Python slice assignment, iterator consumption by map(), generator protocol, Stream.blocks = C08 model)",
+    "translator harness/props/c09_tr.py (ast of audiolazy/lazy_analysis.py -> lean/ALV/Gen/C09Src.lean, rewritten on every check; "
+    "ALV.Props.C09.src_*_is_model prove the regenerated definitions equal to the model functions of ALV/Model/C09.lean / C09Wnd.lean): "
+    "covers the whole body of overlap_add.list (signature and defaults, size detection, hop default, window paragraph, normalisation, "
+    "window application, the slice-assignment loop, the flush), the keyword logic of the stft wrapper (merge, the two checks, pops and "
+    "their defaults in order, ola_params = blk_params.copy() at its place, the ola_ routing loop, the dispatch shape) and the window "
+    "paragraph of blk_gen.  What the translator TRUSTS (= the semantics it assigns to the Python subset, the same the hand model assumed, "
+    "now written once in the translator's rules and sampled by the differential run): `l[a:]` / `l[:a]` = pyDrop / pyTake for any integer "
+    "bound; `l[:a] = it` / `l[a:] = it` replace that slice by list(it); `xmap(f, l, it)` over a block ITERATOR consumes min(len) items of "
+    "it and the next use of `it` sees the rest (a list is not consumed); `[c] * n` = replicate; `0.` / `1` are the carrier's 0 / 1; "
+    "`Stream(l).map(abs).blocks(h).map(tuple)` = ALV.C08.blocks h h 0 (map pyAbs l); `max` of nothing = ValueError, `sum` = left fold from "
+    "0, `xzip(*rows)` = columns cut at the shortest row; `a / b` of sizes and `1 / n` raise ZeroDivisionError iff the divisor is 0 and "
+    "`ceil(size / hop)` is the exact integer ceiling; `if x:` on a list / number = non-empty / non-zero; a generator that raises keeps what "
+    "it yielded before; the three predicates callable / isinstance(., Iterable) / isinstance(., Stream) and `is None` are the only things "
+    "the window paragraph can see of an object (WObj / CallRes); dict.copy / update / pop / item assignment / iteration order = the "
+    "association-list operations dictUpdate / dictPop / dictSet; exception classes and messages are mapped to the model's error "
+    "constructors by a fixed table (an unknown one is a TranslationError); `None > int` = TypeError",
+    "NOT under the translator (hand-written model tied by sampling only): blk_gen after its window paragraph (numpy default imports, "
+    "trans / itrans lambdas, the funcs comprehension, reduce, the two block loops = ALV.C09.blkGen / Stages.funcs / process), the partial "
+    "form of stft (mix_dict / result lambdas = stftDefaults), the clause for window items that are not numbers (olaOpaque), "
+    "Stream.blocks (= C08 model), the generator protocol of @tostream",
     "overlap_add.numpy is NOT tied (numpy unavailable in the sandbox); only overlap_add.list is run",
     "regime labelling (harness/props/c09.py:_regime): exact comparison when every intermediate value is a small dyadic "
     "rational (binary floats exact), else relative tolerance 1e-9",
@@ -68,16 +87,20 @@ ASSUMPTIONS = [
 MANIFEST = {
     "text": "Lean 4 theorems about an executable, code-shaped model of overlap_add.list (window resolution, normalisation gain, "
             "slice-assignment loop, flush, size checks) and of the stft wrapper (keyword merge and routing, blk_gen, run), for all "
-            "block counts / sizes / hops / windows / keyword dictionaries; tied to /repo by a differential run (impl vs model vs spec) "
-            "on every check",
+            "block counts / sizes / hops / windows / keyword dictionaries; tied to /repo by a translator that regenerates the model of "
+            "overlap_add.list and of the wrapper's keyword logic from the source on every check (theorems src_*_is_model) and by a "
+            "differential run (impl vs model vs spec) on every check",
     "note": "the window argument is a Python OBJECT in the model (callable / iterable / Stream predicates, call result, iteration "
             "result; 22 kinds, table checked against real objects) and the binding of ola_params to the strategy's signature with its "
             "defaults is a model function with theorems; overlap_add.numpy cannot be run here (no numpy) and is tied only as far as "
             "'imports numpy first'; Python slice assignment, map() consumption and the "
             "generator protocol are modelled, not verified; floats injected by the impl (mem=[0.]*size, 1/ceil) are compared exactly "
             "on dyadic inputs and with relative tolerance 1e-9 otherwise; known defect D7 recorded in known_findings/C09.json",
-    "technique": "Lean 4 machine-checked proof over an executable model + differential correspondence with spies in three calling styles "
-                 "+ call histories sharing argument objects (argument immutability, independence from earlier calls)",
+    "technique": "Lean 4 machine-checked proof over an executable model + source translator harness/props/c09_tr.py (the bodies of "
+                 "overlap_add.list, of the stft wrapper's keyword logic and of blk_gen's window paragraph are regenerated from the source "
+                 "with ast into lean/ALV/Gen/C09Src.lean on every run and proved equal to the model: src_*_is_model) + differential "
+                 "correspondence with spies in three calling styles + call histories sharing argument objects (argument immutability, "
+                 "independence from earlier calls)",
 }
 
 TOL = F(1, 10 ** 9)
@@ -1688,6 +1711,32 @@ def extra_checks(eng):
     yield ("window-kind-table-matches-real-objects(%d)" % n, not bad, "kind, variant, real, model: %r" % (bad[:4],))
     yield ("overlap_add-default-strategy-is-numpy", overlap_add.default is overlap_add.numpy and
            overlap_add.list is not overlap_add.numpy, "overlap_add.default = %r" % (overlap_add.default,))
+    # --- the source translator (harness/props/c09_tr.py) ------------------------------------------------------------
+    eng.extra["translated"] = {
+        "translator": "harness/props/c09_tr.py -> lean/ALV/Gen/C09Src.lean",
+        "under_translator": [{"source": src, "file": f, "style": style, "lean_definitions": ["ALV.Gen.C09." + d for d in defs],
+                              "theorems": ["ALV.Props.C09.src_%s_is_model" % d for d in defs if d != "hopDefault"]}
+                             for src, f, style, defs in c09_tr.TRANSLATED],
+        "not_under_translator": [{"source": src, "reason": why} for src, why in c09_tr.NOT_TRANSLATED],
+    }
+    import os
+    try:
+        text = c09_tr.translate(c09_tr.read_source())
+        path = os.path.join(common.LEAN, c09_tr.GEN_REL)
+        on_disk = open(path).read() if os.path.exists(path) else None
+        yield ("translator-output-is-the-file-the-theorems-were-checked-on", text == on_disk,
+               "translate(source) differs from lean/%s" % c09_tr.GEN_REL)
+        res = c09_tr.selftest()
+        bad = [(n, d) for n, ok, d in res if not ok]
+        eng.extra["translator_selftest"] = [{"edit": n, "ok": ok, "result": d[:160]} for n, ok, d in res]
+        yield ("translator-selftest(%d edited copies of the source text)" % len(res), not bad, "%r" % (bad[:3],))
+    except c09_tr.TranslationError as e:
+        yield ("translator-selftest", False, "the source cannot be translated: %s" % e)
+
+
+def regenerate(eng=None):
+    """rewrite lean/ALV/Gen/C09Src.lean from audiolazy/lazy_analysis.py of the repo under test (harness/props/c09_tr.py)"""
+    return c09_tr.regenerate(eng)
 
 
 # ==============================================================================================
